@@ -130,9 +130,17 @@ theorem plies_of_ordinary (fm : Nat) (h1 : 1 ≤ fm) (h2 : fm ≤ 1000000) :
 open Board Game in
 /-- **parse_write** -/
 theorem parse_write (c : Cfg) (g : Game) (hs : Sync c g) (hh : g.halfmove < 4294967296) (hp : g.plies < 4000000000)
-    (hpar : g.plies % 2 = if g.player = .black then 1 else 0) :
+    (hpar : g.plies % 2 = if g.player = .black then 1 else 0) (hmen : tooManyMen g.board.squares = false) :
     parse c (write g) = .ok { g with history := [] } :=
-  Fen.parse_write c g hs hh hp hpar
+  Fen.parse_write c g hs hh hp hpar hmen
+
+/-- more than sixteen men of one colour (which would not fit the evaluation accumulators) is a reported error -/
+theorem parse_crowded (c : Cfg) (s : String) (f : Fields) (hf : parseFields s.toList = .ok f)
+    (h : tooManyMen f.squares = true) : parse c s = .err := Fen.parse_crowded c s f hf h
+
+/-- whatever the reader accepts has at most sixteen men a side -/
+theorem parse_ok_men (c : Cfg) (s : String) (g : Game) (h : parse c s = .ok g) :
+    tooManyMen g.board.squares = false := Fen.parse_ok_men c s g h
 
 /-- the same on the bare fields: any mailbox, legal or not -/
 theorem parse_write_fields (sq : Vector (Option Piece) 64) (p : Player) (r : Rights) (ep : Option Sq)
@@ -145,9 +153,10 @@ theorem parse_write_fields (sq : Vector (Option Piece) 64) (p : Player) (r : Rig
 open Board Game in
 /-- **write_parse_canonical** -/
 theorem write_parse_canonical (c : Cfg) (g : Game) (hs : Sync c g) (hh : g.halfmove < 4294967296)
-    (hp : g.plies < 4000000000) (hpar : g.plies % 2 = if g.player = .black then 1 else 0) :
+    (hp : g.plies < 4000000000) (hpar : g.plies % 2 = if g.player = .black then 1 else 0)
+    (hmen : tooManyMen g.board.squares = false) :
     ∃ g', parse c (write g) = .ok g' ∧ write g' = write g :=
-  Fen.write_parse_canonical c g hs hh hp hpar
+  Fen.write_parse_canonical c g hs hh hp hpar hmen
 
 open Board Game in
 /-- every position the reader builds has its views, key and accumulators in step (non-vacuity of `Sync`) -/
@@ -193,3 +202,5 @@ end Tcheran.Props.C06
 #print axioms Tcheran.Props.C06.built_position_in_step
 #print axioms Tcheran.Props.C06.parity_read
 #print axioms Tcheran.Props.C06.parity_apply
+#print axioms Tcheran.Props.C06.parse_crowded
+#print axioms Tcheran.Props.C06.parse_ok_men
